@@ -500,11 +500,9 @@ unsafe fn do_spawn<F: PreExec>(
             Err(Error::Os { code, .. }) => Some(code),
             Err(_) => None,
         };
-        let code: [u8; 4] = if let Some(code) = err_code {
-            code.raw().to_be_bytes()
-        } else {
-            rusl::process::exit(1)
-        };
+        // An error without an errno is reported as code 0, the parent still has to learn
+        // that the program was never executed
+        let code: [u8; 4] = err_code.map_or([0, 0, 0, 0], |code| code.raw().to_be_bytes());
         let bytes = [
             code[0],
             code[1],
@@ -541,9 +539,14 @@ unsafe fn do_spawn<F: PreExec>(
                     return Err(Error::no_code("Validation on the CLOEXEC pipe failed"));
                 }
 
-                let errno = Errno::new(i32::from_be_bytes(errno.try_into().unwrap_unchecked()));
+                let errno = i32::from_be_bytes(errno.try_into().unwrap_unchecked());
                 process.wait()?;
-                return Err(Error::os("Failed to wait for process", errno));
+                if errno == 0 {
+                    return Err(Error::no_code(
+                        "A step before exec failed in the child without an error code",
+                    ));
+                }
+                return Err(Error::os("Failed to wait for process", Errno::new(errno)));
             }
             Err(ref e) if matches!(e.code, Some(Errno::EINTR)) => {}
             Err(_) => {
